@@ -1,0 +1,20 @@
+//go:build !verif
+
+/*
+ * Verification hooks (see the "verif" build tag). With the tag off every hook is an
+ * empty function that the compiler inlines away.
+ */
+
+package y
+
+// VerifPoint marks a named schedule point for the verification harness.
+func VerifPoint(name string) {}
+
+// VerifIO reports that a persistence step (op) on path has just completed.
+func VerifIO(op, path string) {}
+
+// VerifHeight lets the harness choose skiplist tower heights (0 = random).
+func VerifHeight() int { return 0 }
+
+// VerifIV reports the (data key id, IV) pair used by an encryption call.
+func VerifIV(kind string, keyID uint64, iv []byte) {}
